@@ -486,6 +486,11 @@ def check_container(case, ctx):
     V, Fc = ms2.vertices, ms2.faces
     ok = [v.id for v in V] == list(range(len(V)))
     ctx.check(ok, 'container/vertex-ids', 'container vertices are not numbered 0..V-1 consecutively', what='container')
+    for k_, e_ in enumerate(ms2):
+        ctx.check([v.id for v in e_.vertices] == list(range(len(e_.vertices))) and
+                  all(all(0 <= i < len(e_.vertices) for i in f.data) for f in e_.faces), 'container/element-renumbered',
+                  'after tessellating the container, surface %d itself reports vertices / faces that are not numbered 0..V-1' % k_,
+                  what='container')
     ok2 = all(len(f.data) == 3 and all(0 <= i < len(V) for i in f.data) for f in Fc)
     ctx.check(ok2, 'container/face-index', 'container faces reference missing vertices', what='container')
     if ok and ok2:
